@@ -1,6 +1,7 @@
 import Qentem.Proofs.JsonStringify
 import Qentem.Proofs.JsonRoundTrip
 import Qentem.Proofs.JsonRoundTripInt
+import Qentem.Proofs.JsonRoundTripReal
 /-! C08 — Stringify then Parse returns the same tree, and the text is valid JSON. -/
 namespace Qentem.Props.C08
 open Qentem.Json
@@ -34,7 +35,7 @@ nesting, Undefined and pointer-to-value members anywhere, strings over all code 
 signed 64-bit numbers incl. the extremes, every character width and precision; serializer, escaper,
 integer formatter, un-escaper, integer reader and parser are the linked models. `normI` = pointers
 looked through, Undefined members dropped, non-negative signed numbers come back unsigned (equal
-in value). Reals are the open part (C11). -/
+in value). Trees with reals: `roundtrip_linked` below. -/
 theorem roundtrip_int_linked (w : Nat) (real : Nat → Nat → List Nat) (prec : Nat) (v : JVal)
     (hv : IntTree v) (hd : DistinctKeys v) (hu : isUndefined v = false)
     (hsz : (strValue (numFmt real) prec v []).length < 2 ^ 32) :
@@ -46,6 +47,43 @@ unsigned number and an escaped string satisfies the hypotheses. -/
 example : IntTree (.obj [([97], .arr [.nat 5, .undef, .ptr (.int (2 ^ 64 - 3)), .str [34, 1]]), ([], .ptr .undef)]) ∧
     DistinctKeys (.obj [([97], .arr [.nat 5, .undef, .ptr (.int (2 ^ 64 - 3)), .str [34, 1]]), ([], .ptr .undef)]) := by
   simp [IntTree, IntTreeMembers, IntTreeList, DistinctKeys, DKMembers, DKList, isUndefined]
+
+/-- **`roundtrip_linked`: Stringify (precision 17) then Parse returns the same tree, for every value tree with
+finite numbers** — any nesting, Undefined and pointer members anywhere, strings over all code units, unsigned and
+signed 64-bit integers, and every finite double (normal, subnormal, ±0, values printed as `d.ddde±XX`); every
+character width.  All components are the linked models: serializer, escaper, `NumberToString` (integers and the real
+path in the Default format), un-escaper, `StringToNumber`, parser.  `normR` = pointers looked through, Undefined
+members dropped, non-negative signed numbers read back unsigned, each real read back as the number found in its
+`%.17g` text (`realLeaf`): a Real with the same bits, or — when the text is an integer numeral such as `5` or `-3` —
+the Natural / Integer of the same value (`real_value_preserved`).  Composition of C10 (`format_eq_spec`), C11
+(`roundtrip17`, `text17_format`), the parser relocation (`numSpec_of_standalone`), `strValue_eq` and `parse_print`. -/
+theorem roundtrip_linked (w : Nat) (v : JVal) (hv : NumTree v) (hd : DistinctKeys v) (hu : isUndefined v = false)
+    (hsz : (strValue linkedFmt 17 v []).length < 2 ^ 32) :
+    parse (jsonDeps w) (strValue linkedFmt 17 v []).toArray = .ok (normR v) :=
+  Qentem.Json.roundtrip_linked w v hv hd hu hsz
+
+/-- `real_value_preserved`: the number a finite double is read back as converts (by the callers' `double(·)`
+conversion, round-to-nearest-even for integers) to exactly the original double, and it is a number (never Undefined) -/
+theorem real_value_preserved (b : Nat) (hb : Finite64 b) :
+    asDouble (realLeaf b) = some b ∧ isUndefined (realLeaf b) = false :=
+  realLeaf_value b hb
+
+/-- `normR_is_normI_relabelled`: the result is the integer-only normal form with every real leaf replaced by the number
+read back — nothing else changes -/
+theorem normR_is_normI_relabelled (v : JVal) : normR v = relabel (normI v) := normR_eq_relabel v
+
+/-- Non-vacuity: a tree with 0.1, 5.0, -0.0, the smallest subnormal, 1e300, an integer and a string satisfies the
+hypotheses; 5.0 is read back as Natural 5, -3.0 as Integer −3, 0.1 and -0.0 as Reals with the same bits. -/
+example : NumTree (.obj [([97], .arr [.real 0x3FB999999999999A, .real 0x4014000000000000, .real 0x8000000000000000,
+      .real 1, .undef, .ptr (.real 0x7E37E43C8800759C), .nat 7]), ([98], .str [34])]) ∧
+    DistinctKeys (.obj [([97], .arr [.real 0x3FB999999999999A, .real 0x4014000000000000, .real 0x8000000000000000,
+      .real 1, .undef, .ptr (.real 0x7E37E43C8800759C), .nat 7]), ([98], .str [34])]) := by
+  simp [NumTree, NumTreeMembers, NumTreeList, DistinctKeys, DKMembers, DKList, isUndefined, Finite64]
+
+example : readBack 0x4014000000000000 = ⟨.natural, 5, 1⟩ ∧ readBack 0xC008000000000000 = ⟨.integer, 2 ^ 64 - 3, 2⟩ ∧
+    readBack 0x3FB999999999999A = ⟨.real, 0x3FB999999999999A, 19⟩ ∧
+    readBack 0x8000000000000000 = ⟨.real, 0x8000000000000000, 2⟩ := by
+  decide +kernel
 
 theorem specItems_ptr_undef (f : Fmt) (prec : Nat) (xs : List JVal) (b : Bool) :
     specItems f prec (xs ++ [.ptr .undef]) b = specItems f prec xs b := by
